@@ -169,6 +169,34 @@ func checkC06(c *Ctx, r *Result, tier string) {
 			reviewedByNorm[nk] = append(reviewedByNorm[nk], site)
 		}
 	}
+	// An entry whose function no longer exists (a closure turned into a method, a function renamed)
+	// is adopted by an open obligation of the same kind and the same construct text in the same
+	// package, if that is unique.
+	funcKeys := map[string]bool{}
+	for _, fn := range c.ModFuncs() {
+		funcKeys[c.FuncKey(fn)] = true
+	}
+	orphanByTail := map[string][]string{} // pkg + "#" + construct -> entries
+	tailOf := func(site string) (fn, tail string) {
+		i := strings.Index(site, "#")
+		if i < 0 {
+			return site, ""
+		}
+		return site[:i], site[i:]
+	}
+	pkgOfKey := func(fnKey string) string {
+		if i := strings.Index(fnKey, "."); i >= 0 {
+			return fnKey[:i]
+		}
+		return fnKey
+	}
+	for site := range c06Reviewed {
+		fnKey, tail := tailOf(site)
+		if !funcKeys[fnKey] && tail != "" {
+			k := pkgOfKey(fnKey) + tail
+			orphanByTail[k] = append(orphanByTail[k], site)
+		}
+	}
 	premiseFails := c06Premises(c, oc)
 	r.Extra["reviewed_premises_failing"] = premiseFails
 	perKind := map[string][2]int{}
@@ -191,6 +219,12 @@ func checkC06(c *Ctx, r *Result, tier string) {
 			ob := &obs[i]
 			if ob.Discharged || c06Reviewed[ob.Site] != "" {
 				continue
+			}
+			if fnKey, tail := tailOf(ob.Site); tail != "" {
+				if cands := orphanByTail[pkgOfKey(fnKey)+tail]; len(cands) == 1 && !usedReviewed[cands[0]] {
+					ob.Site = cands[0]
+					continue
+				}
 			}
 			nk := normKey(ob.Site)
 			if nk == "" || openByNorm[nk] != 1 || len(reviewedByNorm[nk]) != 1 || usedReviewed[reviewedByNorm[nk][0]] {
@@ -405,7 +439,9 @@ func c06EmbeddedNil(c *Ctx, r *Result) {
 						// the value of a comma-ok assertion on the branch where it succeeded
 						for _, ref := range *ta.Referrers() {
 							if e2, isE := ref.(*ssa.Extract); isE && e2.Index == 1 && st.Get(e2, o) == AvNonNil {
-								good = localNonNil(ta.X, 0) || st.Get(ta.X, o) == AvNonNil
+								// the assertion succeeded: the interface holds a pointer of that type (a
+								// typed nil pointer inside an error is the separate nilerrtype class)
+								good = true
 							}
 						}
 					}
